@@ -284,10 +284,15 @@ def finish(ctx, manifest_level="proof"):
     # failed obligations without any concrete failing input => no-failing-input-found
     failed_obl = [n for n, ok in ctx.obligations if not ok]
     rc = 0
-    # de-duplicate by sig, report at most 10
+    # de-duplicate by sig, report at most 10.  Violations that carry a concrete failing input /
+    # history / schedule of the PROPERTY come first; a broken regenerated obligation or a
+    # model-vs-implementation disagreement without such an input ("static") is reported with
+    # the words no-failing-input-found, and only when no concrete one was found.
     reported = 0
     seen = set()
-    for v in new:
+    concrete = [v for v in new if not v.get("static")]
+    static = [v for v in new if v.get("static")]
+    for v in concrete:
         key = v.get("sig") or json.dumps(v.get("detail", {}), sort_keys=True, default=str)
         if key in seen:
             continue
@@ -297,7 +302,20 @@ def finish(ctx, manifest_level="proof"):
             print("VIOLATION property=%s replay=%s" % (ctx.prop, path), flush=True)
         reported += 1
         rc = 1
-    if failed_obl and not new:
+    if not concrete:
+        for v in static:
+            key = v.get("sig") or json.dumps(v.get("detail", {}), sort_keys=True, default=str)
+            if key in seen:
+                continue
+            seen.add(key)
+            if reported < 10:
+                v = dict(v)
+                v["no_longer_checks"] = v.get("kind")
+                path = write_replay(ctx, v, reported)
+                print("VIOLATION property=%s replay=%s no-failing-input-found" % (ctx.prop, path), flush=True)
+            reported += 1
+            rc = 1
+    if failed_obl and rc == 0:
         # is every failed obligation explained by a known finding? only if declared so
         unexplained = [n for n in failed_obl if not any(n in e.get("explains_obligations", []) and e["id"] in seen_known for e in known)]
         if unexplained:
